@@ -96,6 +96,7 @@ func c47Child(run *mon.Run, tier, name string) {
 		// want: "TRUE", "not-true" or "ref" (= whatever the trusted primitive says on the same bytes)
 		got := verifyWith(scheme, pubHex, sigHex, hashHex)
 		run.Eval(1)
+		run.Sample(map[string]interface{}{"scheme": scheme, "class": class, "expected": want, "verify": got, "detail": detail})
 		if want == "TRUE" {
 			run.Count("c47.positive", 1)
 		} else {
